@@ -141,6 +141,7 @@ impl Director {
         mut on_step: impl FnMut(&mut Self),
     ) -> DriveEnd {
         let mut idle_ticks = 0u32;
+        let mut busy_ticks = 0u32;
         let mut last_progress = self.progress.as_ref().map(|p| p());
         loop {
             self.sched.settle().await;
@@ -152,7 +153,11 @@ impl Director {
                 return DriveEnd::StepLimit;
             }
             let ready = self.sched.ready_len();
-            if ready == 0 || self.rng.gen_range(0..100) < self.tick_pct {
+            // (A cut replay may answer "tick" for ever; runnable tasks are never starved of more
+            // than 1000 consecutive clock advances.)
+            let tick = ready == 0 || (self.rng.gen_range(0..100) < self.tick_pct && busy_ticks < 1000);
+            busy_ticks = if tick && ready > 0 { busy_ticks + 1 } else { 0 };
+            if tick {
                 let k = self.rng.gen_range(0..self.tick_sizes.len());
                 let mut ns = self.tick_sizes[k];
                 if ready == 0 {
